@@ -317,6 +317,21 @@ let on_syn (idx : int) (obs : string) : unit =
         end
       end
 
+(* DELTA: `<ACK dump> bytes <n>`; the budget is for the delta alone (4 header bytes excluded) *)
+let on_delta (idx : int) (mtu : int) (sched : id list) (obs : string) : unit =
+  if obs <> "PANIC" then begin
+    let c = cursor_of_line obs in
+    let m = parse_message c in
+    expect c "bytes";
+    let b = next_int c in
+    check "C07" (b - 4 <= mtu) (Printf.sprintf "serialized delta of %d bytes exceeds its budget %d" (b - 4) mtu);
+    match Hashtbl.find_opt snaps idx, delta_of_message m with
+    | Some s, Some x ->
+        check "C07" (c07_delta_ok s.nodes sched x)
+          "computed delta is not the version-prefix of the sender's stale entries (or names a scheduled member)"
+    | _ -> ()
+  end
+
 let on_catchup (idx : int) (obs : string) : unit =
   catchup_seen := true;
   match parse_obs obs with
